@@ -30,7 +30,8 @@ BOUNDS = {
 }
 OUTSIDE = ("sphere_fibonacci surface (qhull), icosphere beyond one refinement, apex placement of ring() (float bisection on atan2); "
            "E2 results are for the translated kernel (translator trusted, validated on the stated box)")
-ASSUMPTIONS = ["resolutions are integers >= the generator's minimum (grid: 2, torus/cylinder/sphere: 3)", "radii are non-zero reals"]
+ASSUMPTIONS = ["E2 verdicts are z3's, cross-checked with the cvc5 binary on the same SMT-LIB text (a disagreement is a harness error)",
+               "resolutions are integers >= the generator's minimum (grid: 2, torus/cylinder/sphere: 3)", "radii are non-zero reals"]
 STUBS = ["np.cos/np.sin/math.cos/math.sin in mouette.procedural.shapes and geometry.rotations -> symbols with c^2+s^2=1 (one pair "
          "per distinct angle value)", "np.linspace left concrete"]
 WALL_S = {"quick": 420, "thorough": 1750}
@@ -482,6 +483,9 @@ def e2_kernel(name, registry=None):
                             st, inputs=_inputs(model, spec), seconds=res.queries[-1]["seconds"],
                             detail="line %d slot %d: %s vs position %s" % (g.lineno, si, t, z3.simplify(want)),
                             sample=dict(kind="E2 obligation", kernel=name, goal="%s == %s" % (t, z3.simplify(want)), result=res.queries[-1]["result"]))
+        if getattr(res, "cross_checked", 0) and hasattr(sx, "samples"):
+            sx.samples.insert(0, dict(kind="second solver", kernel=name, note="cvc5 gave the same verdict as z3 on %d of %d E2 queries "
+                                      "(same SMT-LIB text)" % (res.cross_checked, len(res.queries))))
         for w in K.writes:
             want = spec["write_pos"](K, w, sym, vgen) if "write_pos" in spec else None
             if want is not None:
